@@ -181,8 +181,21 @@ def resolve(key):
     return obj, ('method' if owner is not None else 'function'), owner
 
 
+def install_tensor_ghosts():
+    try:
+        import torch
+    except ImportError:
+        return
+    Tn = torch.Tensor
+    if not hasattr(Tn, 'contig'):
+        Tn.contig = property(lambda self: self.is_contiguous())
+        Tn.sid = property(lambda self: self.untyped_storage().data_ptr() if self.numel() else id(self))
+        Tn.val = property(lambda self: __import__('harness.specfuncs_rt', fromlist=['MatVal']).MatVal(self))
+
+
 class RuntimeContract:
     def __init__(self, cdict, spec_defs):
+        install_tensor_ghosts()
         self.c = cdict
         self.requires = [Clause(l, t) for l, t in cdict['requires']]
         self.ensures = [Clause(l, t) for l, t in cdict['ensures']]
